@@ -128,7 +128,8 @@ def _xdr_types():
 class _XdrHarnesses(list):
     """the per-type harness list depends on the types currently in /repo/nfstypes (generated file)"""
     def __iter__(self):
-        base = [H("nfstypes.VerifXdrDispatch", q={}, t={}), H("nfstypes.VerifXdrFhBound", q={}, t={})]
+        base = [H("nfstypes.VerifXdrDispatch", q={}, t={}), H("nfstypes.VerifXdrFhBound", q={}, t={}),
+                H("nfstypes.VerifXdrBounds", covers=("accepted", "refused", "end"), q={}, t={}, budget_s=300)]
         gen = [H("nfstypes.VerifXdr_" + n, covers=("end",), q={"xdrdepth": 1, "xdrlens": 2}, t={"xdrdepth": 1, "xdrlens": 4},
                  budget_s=120, budget_s_t=900) for n in _xdr_types()]
         return iter(base + gen)
@@ -190,6 +191,8 @@ PROPS["C09"] = {
 
 
 PROPS["C10"]["harnesses"] += _steps("p10", (1, 2))
+PROPS["C10"]["harnesses"].append(H("nfs.VerifC02Lookup", covers=("found", "absent", "last-slot", "end"), q=dict(STEPQ, inums=1, dirslots=32, nodirhook=1, sizeblocks=0), t=dict(STEPQ, inums=1, dirslots=32, nodirhook=1, sizeblocks=0), lmax=3, budget_s=600))
+PROPS["C10"]["explanation"] += "; a name cache rebuilt from disk (cold cache, as after a restart or an aborted request) answers LOOKUP exactly as the directory block does, on a full 32-slot directory with names of the maximum length"
 PROPS["C10"]["strict_witness"] = False
 PROPS["C09"].pop("unclaimed", None)
 PROPS["C06"]["harnesses"] += _steps("p06", (1, 2, 3, 4))
@@ -280,6 +283,7 @@ PROPS["C02"] = {
     "outside": ["sequences of more than one mutator (induction over the step)", "restarts (C10: cache = disk, C01 recovery)", "directories beyond K_slots entries, names longer than L_name", "witness offsets other than the representatives", "transfers of more than B_bytes bytes", "READDIR listings (C13 decides them against the directory block)"],
     "harnesses": [
         H("nfs.VerifC02Data", covers=("ok", "refused", "written", "kept", "gap", "end"), q=dict(STEPQ, inums=1, zeroalloc=1, offsets=0, wblks=2, preentries=1), t=dict(STEPT, inums=1, zeroalloc=1, offsets=1, wblks=3, pendingshrink=0, preentries=1), lmax=3, budget_s=600, budget_s_t=3000),
+        H("nfs.VerifC02Lookup", covers=("found", "absent", "last-slot", "end"), q=dict(STEPQ, inums=1, dirslots=32, nodirhook=1, sizeblocks=0), t=dict(STEPQ, inums=1, dirslots=32, nodirhook=1, sizeblocks=0), lmax=3, budget_s=600),
         H("nfs.VerifC02Names", covers=("created", "removed", "renamed", "refused", "end"), q=dict(STEPQ, inums=1, preentries=1), t=dict(STEPT, preentries=1, pendingshrink=0), lmax=3, budget_s=900, budget_s_t=3000),
     ],
 }
@@ -292,11 +296,11 @@ PROPS["C05"] = {
     "harnesses": _steps("p05", (1, 2, 3), covers_by={2: ("w5-create", "w5-remove"), 3: ("w5-rename",)}, q_by={2: {"pendingshrink": 1}}, t_by={1: {"inums": 1, "pendingshrink": 0, "namelens": 2}, 2: {"inums": 1, "namelens": 2}, 3: {"inums": 1, "pendingshrink": 0, "namelens": 2}}) + [
         H("nfs.VerifC05Shrink", covers=("end", "entry-freed", "entry-hole"), q=dict(STEPQ, inums=1, bblocks=2, sizeblocks=0), t=dict(STEPQ, inums=2, bblocks=3, sizeblocks=0), lmax=3, budget_s=400, budget_s_t=1500),
         H("nfs.VerifC05Restart", covers=("end",), q=dict(STEPQ, inums=1), t=dict(STEPQ, inums=1), budget_s=200),
+        {"fn": "github.com/mit-pdos/go-journal/alloc.VerifAllocContract", "covers": ["end", "full", "allocated"], "q": {"allocbytes": 2, "realalloc": 1}, "t": {"allocbytes": 3, "realalloc": 1}, "budget_s": 300, "budget_s_t": 900},
     ],
 }
 
 NOT_APPLICABLE = {
-    "C05": "the on-disk step obligations (dropped block unmarked, block marked by the request pointed to, inode bitmap = live inodes, object that lost its only name freed, DoShrink completes) are decided under C04 and the return of allocations by failed requests under C09; the agreement of the in-memory allocators with the disk bitmaps (the allocator is a contract stub in the step harnesses) and blocks reached through index blocks are not decided, so the property as stated is not claimed (DESIGN.md A.1)",
 }
 
 
